@@ -132,6 +132,22 @@ crop_state_ok = bool(re.search(r"cinfo->global_state\s*==\s*DSTATE_SCANNING\s*&&
 if "eoi_reached = TRUE" not in ja:
     die("jdapistd.c: jpeg_skip_scanlines no longer marks the end of input at the bottom clamp")
 
+# repairs of the known jpeg_skip_scanlines hazards present in this tree? (shapes of the proposed minimal diffs)
+fix_h1 = bool(re.search(r"if\s*\(!main_ptr->buffer_full\s*&&\s*lines_left_in_iMCU_row\s*>\s*0\)\s*\{\s*cinfo->output_scanline\s*-=\s*lines_per_iMCU_row\s*-\s*lines_left_in_iMCU_row;\s*"
+                        r"lines_after_iMCU_row\s*=\s*num_lines\s*\+\s*\(lines_per_iMCU_row\s*-\s*lines_left_in_iMCU_row\);\s*lines_left_in_iMCU_row\s*=\s*0;\s*\}", ja_nc))
+fix_h2 = bool(re.search(r"if\s*\(upsample->next_row_out\s*<\s*cinfo->max_v_samp_factor\)\s*\{\s*JDIMENSION partial\s*=\s*\(JDIMENSION\)\(cinfo->max_v_samp_factor\s*-\s*upsample->next_row_out\);\s*"
+                        r"if\s*\(partial\s*>\s*rows\)\s*partial\s*=\s*rows;\s*read_and_discard_scanlines\(cinfo,\s*partial\);\s*rows\s*-=\s*partial;\s*\}", ja_nc))
+fix_h4_sep = bool(re.search(r"cinfo->output_scanline\s*\+=\s*rows\s*-\s*rows_left;\s*if\s*\(!master->using_merged_upsample\)\s*\(\(my_upsample_ptr\)cinfo->upsample\)->rows_to_go\s*=\s*cinfo->output_height\s*-\s*cinfo->output_scanline;", ja_nc))
+fix_h4_mrg = len(re.findall(r"else\s*\(\(my_merged_upsample_ptr\)cinfo->upsample\)->rows_to_go\s*=\s*cinfo->output_height\s*-\s*cinfo->output_scanline;", ja_nc)) >= 2
+if fix_h4_sep != fix_h4_mrg:
+    die("jdapistd.c: only one half of the rows_to_go repair (separate / merged upsampler) is present")
+fix_h4 = fix_h4_sep and fix_h4_mrg
+n_le1 = len(re.findall(r"lines_left_in_iMCU_row\s*<=\s*1\s*&&\s*main_ptr->buffer_full", ja_nc))
+n_ltv = len(re.findall(r"lines_left_in_iMCU_row\s*<\s*\(JDIMENSION\)cinfo->max_v_samp_factor\s*&&\s*main_ptr->buffer_full", ja_nc))
+if (n_le1, n_ltv) not in ((2, 0), (0, 2)):
+    die("jdapistd.c: the 'next iMCU row already decoded' tests of jpeg_skip_scanlines changed shape (%d, %d)" % (n_le1, n_ltv))
+fix_h6 = n_ltv == 2
+
 def zl(xs):
     return "[" + "; ".join(str(x) for x in xs) + "]"
 print("(* GENERATED by tools/gen_Scaling.py from src/turbojpeg.c, turbojpeg.h, jpeglib.h, jdmaster.c, jdapistd.c -- do not edit *)")
@@ -153,6 +169,9 @@ print("Definition gen_crop_window_set_once : bool := %s." % ("true" if window_on
 print("(* jdapistd.c: skip-to-bottom touches the input controller only when !buffered_image; crop tests output_scanline only in DSTATE_SCANNING *)")
 print("Definition gen_skip_clamp_guards_buffered : bool := %s." % ("true" if clamp_guard else "false"))
 print("Definition gen_crop_state_test_scanning_only : bool := %s." % ("true" if crop_state_ok else "false"))
+print("(* jdapistd.c: repairs of skip hazards 1, 2, 4, 6 present in the source *)")
+for nm, v in (("gen_fix_h1", fix_h1), ("gen_fix_h2", fix_h2), ("gen_fix_h4", fix_h4), ("gen_fix_h6", fix_h6)):
+    print("Definition %s : bool := %s." % (nm, "true" if v else "false"))
 print("(* jdmaster.c chain: (threshold k of `scale_num*DCTSIZE <= scale_denom*k` (0 = final else), width multiplier, height multiplier,")
 print("   _min_DCT_h_scaled_size, _min_DCT_v_scaled_size) in source order *)")
 print("Definition gen_scale_chain : list (Z * Z * Z * Z * Z) :=\n  [%s]." % "; ".join("(%d, %d, %d, %d, %d)" % b for b in branches))
